@@ -124,8 +124,12 @@ def world():
 
 
 def engine_for(convert):
+    """convert: True | False | 'raw-tuples' (input conversion off AND yaql.convertTuplesToLists off: sequences
+    of the result keep their type, so nothing forces a copy on the way out)."""
     opts = dict(corpus.OPTIONS)
-    opts['yaql.convertInputData'] = convert
+    opts['yaql.convertInputData'] = convert is True
+    if convert == 'raw-tuples':
+        opts['yaql.convertTuplesToLists'] = False
     return yq.engine(opts, allow_delegates=True)
 
 
@@ -274,7 +278,7 @@ def job_scan(tier, idents):
         rec = byid[ident]
         n = 0
         for pi, form, text, variables, label, mk in scan_cases(rec, tier):
-            for convert in (True, False):
+            for convert in (True, False, 'raw-tuples'):
                 judge_one(res, rec, pi, form, text, variables, label, mk, convert)
                 n += 1
         if n and len(res.samples) < 2:
@@ -292,7 +296,7 @@ POOL = [
     '$.orderBy($).thenByDescending($).toList()',
     "regex('(\\d)').replaceBy($.select(str($)).join(''), $.value + 'y')",
     '$.toList().insert(0, 9)',
-    "dict(a => $[0]).set('b', 2).remove('a')",
+    "dict(a => $[0]).set('b', 2).delete('a')",
     '$.toSet().union([9].toSet()).len()',
     '[$x, $y, $z]',
     '$.groupBy($ mod 2).toList()',
@@ -307,15 +311,42 @@ def _stmt_state(st):
     return canon.digest(canon.snapshot({k: v for k, v in vars(st).items() if k != 'engine'}))
 
 
-def job_histories(reuse_child, max_depth):
+def bare_context():
+    """A hand-assembled standard-library context WITHOUT the #finalize / #iter functions that
+    yaql.create_context() adds (hosts may build contexts this way; Statement then falls back to an identity
+    finaliser in a private child)."""
+    from yaql.language import contexts as ycontexts, conventions
+    from yaql.standard_library import (boolean, branching, collections as scoll, common, date_time, math,
+                                       queries, regex, strings, system, yaqlized)
+    ctx = ycontexts.Context(convention=conventions.CamelCaseConvention())
+    system.register_fallbacks(ctx)
+    ctx = ctx.create_child_context()
+    system.register(ctx, False)
+    for m in (common, boolean, strings, math):
+        m.register(ctx)
+    scoll.register(ctx, False)
+    queries.register(ctx, True)
+    for m in (regex, branching, date_time):
+        m.register(ctx)
+    return yaqlized.register(ctx)
+
+
+CONTEXT_KINDS = ('std-fresh-child', 'std-reused-child', 'bare-fresh-child', 'bare-itself')
+
+
+def job_histories(max_depth, stmts=None):
     """Explicit-state search.  State = (content variant of each persistent host document, which document the
-    reused child's `$` holds) + everything that must NOT change (context chain, statements).  Events:
-    evaluate(statement i, document d) on the SAME host document objects, and mutate(d): the host changes
-    document d in place between evaluations (append / remove an element)."""
+    reused child's `$` holds) + everything that must NOT change (both context chains, statements).  Events:
+    evaluate(statement i, document d, context kind) on the SAME statement and host document objects - in a fresh
+    child of the prepared standard context, in one reused child of it, or in a fresh child of a hand-assembled
+    context without finaliser - and mutate(d): the host changes document d in place between evaluations."""
     res = Result()
     eng = yq.fresh_engine()
     parent = yaql.create_context()
     parent['x'] = 10
+    bare = bare_context()
+    bare['x'] = 10
+    bare['y'] = 20
     sts = [eng(t) for t in POOL]
     child = parent.create_child_context()
     child['y'] = 20
@@ -323,29 +354,47 @@ def job_histories(reuse_child, max_depth):
     variants = [[copy.deepcopy(d), copy.deepcopy(d) + [9]] for d in DOCS]
 
     def invariant():
-        return (chain_state(child if reuse_child else parent, skip_dollar_in=child if reuse_child else None),
+        return (chain_state(child, skip_dollar_in=child), chain_state(bare, skip_dollar_in=bare),
                 tuple(_stmt_state(s) for s in sts))
     init = invariant()
     reference = {}
 
-    def ref(si, content):
-        """What a freshly parsed statement on a fresh engine returns for an equal copy of the data."""
-        k = (si, repr(content))
+    def context_for(kind, fresh_world=None):
+        if kind == 'std-reused-child':
+            return child if fresh_world is None else fresh_world[0].create_child_context()
+        if kind == 'bare-itself':          # the host hands its own context to evaluate(): only `$` may change in it
+            return bare if fresh_world is None else fresh_world[1]
+        base = (parent if kind.startswith('std') else bare) if fresh_world is None else \
+            (fresh_world[0] if kind.startswith('std') else fresh_world[1])
+        c = base.create_child_context()
+        return c
+
+    def shown(v):
+        return repr(yq.canon(v))
+
+    def ref(si, content, kind):
+        """What a freshly parsed statement on a fresh engine and freshly built contexts returns for an equal copy."""
+        k = (si, repr(content), kind)
         if k not in reference:
-            e2 = yq.fresh_engine() if len(reference) % 12 == 0 else eng
-            c2 = parent.create_child_context()
-            c2['y'] = 20
+            p2 = yaql.create_context()
+            p2['x'] = 10
+            b2 = bare_context()
+            b2['x'] = 10
+            b2['y'] = 20
+            c2 = context_for(kind, (p2, b2))
+            if kind != 'bare-itself':
+                c2['y'] = 20
             try:
-                reference[k] = ('v', repr(e2(POOL[si]).evaluate(data=copy.deepcopy(content), context=c2)))
+                reference[k] = ('v', shown(yq.fresh_engine()(POOL[si]).evaluate(data=copy.deepcopy(content), context=c2)))
             except Exception as e:
                 reference[k] = ('e', type(e).__name__)
         return reference[k]
 
     def goto(state):
         vs, last = state
-        for d, v in zip(docs, vs):
-            d[:] = copy.deepcopy(variants[docs.index(d)][v])
-        if reuse_child and last is not None:
+        for di, (d, v) in enumerate(zip(docs, vs)):
+            d[:] = copy.deepcopy(variants[di][v])
+        if last is not None:
             child['$'] = yutils.convert_input_data(docs[last])
 
     start = (tuple(0 for _ in docs), None)
@@ -357,11 +406,12 @@ def job_histories(reuse_child, max_depth):
         nxt = []
         for state in frontier:
             hist = seen[state]
-            events = [('eval', si, di) for si in range(len(POOL)) for di in range(len(DOCS))] + \
+            events = [('eval', si, di, ck) for si in (stmts if stmts is not None else range(len(POOL)))
+                      for di in range(len(DOCS)) for ck in CONTEXT_KINDS] + \
                      [('mutate', di) for di in range(len(DOCS))]
             for ev in events:
                 goto(state)
-                case = {'kind': 'history', 'history': [list(h) for h in hist] + [list(ev)], 'reuse': reuse_child}
+                case = {'kind': 'history', 'history': [list(h) for h in hist] + [list(ev)]}
                 CURRENT_CASE[0] = case
                 transitions += 1
                 res.transitions += 1
@@ -372,54 +422,53 @@ def job_histories(reuse_child, max_depth):
                     docs[di][:] = copy.deepcopy(variants[di][vs[di]])
                     new = (tuple(vs), state[1])
                 else:
-                    _, si, di = ev
+                    _, si, di, ck = ev
                     before = repr(docs[di])
-                    ctx = child if reuse_child else parent.create_child_context()
-                    if not reuse_child:
+                    ctx = context_for(ck)
+                    if ck not in ('std-reused-child', 'bare-itself'):
                         ctx['y'] = 20
                     try:
-                        r = ('v', repr(sts[si].evaluate(data=docs[di], context=ctx)))
+                        r = ('v', shown(sts[si].evaluate(data=docs[di], context=ctx)))
                     except Exception as e:
                         r = ('e', type(e).__name__)
                     res.evaluations += 1
                     if hist:
                         res.nontrivial += 1
                     case['texts'] = [POOL[si]]
-                    exp = ref(si, variants[di][state[0][di]])
+                    exp = ref(si, variants[di][state[0][di]], ck)
                     if r != exp:
-                        res.fail('result depends on evaluation history stmt=%d' % si, case,
-                                 'now %r, a fresh statement on equal data gives %r' % (r, exp), size=len(hist))
+                        res.fail('result depends on evaluation history stmt=%d context=%s' % (si, ck.split('-')[0]), case,
+                                 'now %r, a fresh statement on equal data in a fresh context gives %r' % (r, exp), size=len(hist))
                     if repr(docs[di]) != before:
                         res.fail('host document mutated by evaluation stmt=%d' % si, case,
                                  'before %s after %r' % (before, docs[di]), size=len(hist))
                     if invariant() != init:
-                        res.fail('shared context or statement changed by evaluation stmt=%d' % si, case,
+                        res.fail('shared context or statement changed by evaluation stmt=%d context=%s' % (si, ck.split('-')[0]), case,
                                  'context chain / statement snapshot differs from the initial one (ignoring `$` of the evaluation context)',
                                  size=len(hist))
-                        # restore what can be restored so that the search can go on: rebuild the world
-                        return _rebuild_and_stop(res, seen, transitions, reuse_child)
-                    res.outcomes['hist ' + ('value' if r[0] == 'v' else r[1])] += 1
-                    new = (state[0], di if reuse_child else None)
+                        return _rebuild_and_stop(res, seen, transitions)
+                    res.outcomes['hist %s %s' % (ck.split('-')[0], 'value' if r[0] == 'v' else r[1])] += 1
+                    new = (state[0], di if ck == 'std-reused-child' else state[1])
                 if new not in seen:
                     seen[new] = hist + (ev,)
-                    res.case(('hist', reuse_child, new))
+                    res.case(('hist', new))
                     nxt.append(new)
         frontier = nxt
         depth += 1
     res.states += 1
-    res.extra['e2_states_%s' % ('reused' if reuse_child else 'fresh')] = len(seen)
+    res.extra['e2_states'] = len(seen)
     res.extra['e2_transitions'] = transitions
     if frontier:
         res.caps.append('E2 depth cap %d with %d open states' % (max_depth, len(frontier)))
-    res.sample({'pool': POOL[:3], 'docs': DOCS, 'reuse_child': reuse_child, 'states': len(seen),
+    res.sample({'pool': POOL[:3], 'docs': DOCS, 'context_kinds': list(CONTEXT_KINDS), 'states': len(seen),
                 'longest_history': [list(e) for e in max(seen.values(), key=len)]})
     return res
 
 
-def _rebuild_and_stop(res, seen, transitions, reuse_child):
+def _rebuild_and_stop(res, seen, transitions):
     res.caps.append('E2 search stopped at the first state change (the invariant is broken; further states are meaningless)')
     res.states += 1
-    res.extra['e2_states_%s' % ('reused' if reuse_child else 'fresh')] = len(seen)
+    res.extra['e2_states'] = len(seen)
     res.extra['e2_transitions'] = transitions
     return res
 
@@ -430,8 +479,9 @@ def jobs(tier, seed):
     out = []
     for i, part in enumerate(chunks(idents, 40)):
         out.append(('scan-%02d' % i, 'job_scan', (tier, part)))
-    out.append(('hist-reused', 'job_histories', (True, 12)))
-    out.append(('hist-fresh', 'job_histories', (False, 12)))
+    for k in range(6):
+        # every shard keeps the mutate events and two statements, so every shard reaches all 32 states
+        out.append(('histories-%d' % k, 'job_histories', (12, list(range(len(POOL)))[k::6])))
     return out
 
 
@@ -445,5 +495,5 @@ def replay(case):
                 judge_one(res, rec, pi, form, text, variables, label, mk, case['convert'])
                 break
         return {'observed': {k: f.detail for k, f in res.failures.items()}, 'expected': 'no side effect', 'ok': not res.failures}
-    r = job_histories(case.get('reuse', True), len(case['history']))
+    r = job_histories(len(case['history']))
     return {'observed': {k: f.detail for k, f in r.failures.items()}, 'expected': 'state constant', 'ok': not r.failures}
